@@ -11,7 +11,8 @@ From TX Require Import Base.Threads Model.ConnCode Proofs.ConnCode Proofs.SideC0
 
 (* premises of the schedule theorems, spelled out:
    no mapping made from the code exists yet; every caller is about to make its first storage call (or was rejected
-   on its parameters); callers have distinct ids (= freshness of generated mapping ids, C15). *)
+   on its parameters); callers have distinct ids (= freshness of generated mapping ids, C15); a claim marker already present
+   at the start (a code used / revoked earlier) lasts to the end of the activation window like every marker the code sets. *)
 
 (* (full statement, part 1) in every reachable state at most one activation has succeeded *)
 Theorem C06_at_most_one_success_all_schedules :
@@ -19,11 +20,12 @@ Theorem C06_at_most_one_success_all_schedules :
   mains (fst s) = [] ->
   (forall t, In t (snd s) -> l_pc t = PGet \/ exists e, l_pc t = PDone (RErr e)) ->
   (forall i j ti tj, nth_error (snd s) i = Some ti -> nth_error (snd s) j = Some tj -> l_me ti = l_me tj -> i = j) ->
+  (claim (fst s) = true -> (p_win P <= claim_dl (fst s))%N) ->
   let s' := run sh lo (tstep Current P) s sched in
   forall i j ti tj mi mj,
     nth_error (snd s') i = Some ti -> nth_error (snd s') j = Some tj ->
     l_pc ti = PDone (ROk mi) -> l_pc tj = PDone (ROk mj) -> i = j.
-Proof. intros P s sched H1 H2 H3. exact (at_most_one_success P s sched (conj H1 (conj H2 H3))). Qed.
+Proof. intros P s sched H1 H2 H3 H4. exact (at_most_one_success P s sched (conj H1 (conj H2 (conj H3 H4)))). Qed.
 Print Assumptions C06_at_most_one_success_all_schedules.
 
 (* (full statement, part 2) once every call has returned, at most one mapping made from the code is in the store,
@@ -33,11 +35,12 @@ Theorem C06_at_most_one_mapping_all_schedules :
   mains (fst s) = [] ->
   (forall t, In t (snd s) -> l_pc t = PGet \/ exists e, l_pc t = PDone (RErr e)) ->
   (forall i j ti tj, nth_error (snd s) i = Some ti -> nth_error (snd s) j = Some tj -> l_me ti = l_me tj -> i = j) ->
+  (claim (fst s) = true -> (p_win P <= claim_dl (fst s))%N) ->
   let s' := run sh lo (tstep Current P) s sched in
   (forall t, In t (snd s') -> exists r, l_pc t = PDone r) ->
   length (mains (fst s')) <= 1 /\
   (forall m, In m (mains (fst s')) -> exists t, In t (snd s') /\ l_pc t = PDone (ROk (m_id m))).
-Proof. intros P s sched H1 H2 H3. exact (at_most_one_mapping P s sched (conj H1 (conj H2 H3))). Qed.
+Proof. intros P s sched H1 H2 H3 H4. exact (at_most_one_mapping P s sched (conj H1 (conj H2 (conj H3 H4)))). Qed.
 Print Assumptions C06_at_most_one_mapping_all_schedules.
 
 (* in EVERY reachable state (not only at the end) a call that returned an error has left no mapping record *)
@@ -46,10 +49,11 @@ Theorem C06_failed_leaves_nothing :
   mains (fst s) = [] ->
   (forall t, In t (snd s) -> l_pc t = PGet \/ exists e, l_pc t = PDone (RErr e)) ->
   (forall i j ti tj, nth_error (snd s) i = Some ti -> nth_error (snd s) j = Some tj -> l_me ti = l_me tj -> i = j) ->
+  (claim (fst s) = true -> (p_win P <= claim_dl (fst s))%N) ->
   let s' := run sh lo (tstep Current P) s sched in
   forall t e, In t (snd s') -> l_pc t = PDone (RErr e) ->
   forall m, In m (mains (fst s')) -> m_id m <> l_me t.
-Proof. intros P s sched H1 H2 H3. exact (failed_leaves_nothing P s sched (conj H1 (conj H2 H3))). Qed.
+Proof. intros P s sched H1 H2 H3 H4. exact (failed_leaves_nothing P s sched (conj H1 (conj H2 (conj H3 H4)))). Qed.
 Print Assumptions C06_failed_leaves_nothing.
 
 (* ... and no entry in the global mapping list either *)
@@ -58,9 +62,10 @@ Theorem C06_failed_leaves_no_global_list_entry :
   mains (fst s) = [] -> glob (fst s) = [] ->
   (forall t, In t (snd s) -> l_pc t = PGet \/ exists e, l_pc t = PDone (RErr e)) ->
   (forall i j ti tj, nth_error (snd s) i = Some ti -> nth_error (snd s) j = Some tj -> l_me ti = l_me tj -> i = j) ->
+  (claim (fst s) = true -> (p_win P <= claim_dl (fst s))%N) ->
   let s' := run sh lo (tstep Current P) s sched in
   forall t e, In t (snd s') -> l_pc t = PDone (RErr e) -> ~ In (l_me t) (glob (fst s')).
-Proof. intros P s sched H1 Hg H2 H3. exact (failed_leaves_no_global_entry P s sched (conj H1 (conj H2 H3)) Hg). Qed.
+Proof. intros P s sched H1 Hg H2 H3 H4. exact (failed_leaves_no_global_entry P s sched (conj H1 (conj H2 (conj H3 H4))) Hg). Qed.
 Print Assumptions C06_failed_leaves_no_global_list_entry.
 
 (* PARTIAL: the same for the per-client index lists (tunnox:client_mappings:<client>) is NOT proved as an unbounded theorem
@@ -72,6 +77,7 @@ Definition C06_full_failed_leaves_no_client_index_entry : Prop :=
   mains (fst s) = [] -> cidx (fst s) = [] ->
   (forall t, In t (snd s) -> l_pc t = PGet \/ exists e, l_pc t = PDone (RErr e)) ->
   (forall i j ti tj, nth_error (snd s) i = Some ti -> nth_error (snd s) j = Some tj -> l_me ti = l_me tj -> i = j) ->
+  (claim (fst s) = true -> (p_win P <= claim_dl (fst s))%N) ->
   let s' := run sh lo (tstep Current P) s sched in
   forall t e, In t (snd s') -> l_pc t = PDone (RErr e) -> forall c, ~ In (c, l_me t) (cidx (fst s')).
 
@@ -82,11 +88,12 @@ Theorem C06_mapping_shape :
   mains (fst s) = [] ->
   (forall t, In t (snd s) -> l_pc t = PGet \/ exists e, l_pc t = PDone (RErr e)) ->
   (forall i j ti tj, nth_error (snd s) i = Some ti -> nth_error (snd s) j = Some tj -> l_me ti = l_me tj -> i = j) ->
+  (claim (fst s) = true -> (p_win P <= claim_dl (fst s))%N) ->
   let s' := run sh lo (tstep Current P) s sched in
   forall m, In m (mains (fst s')) ->
   m_target m = p_tgt P /\ m_taddr m = p_taddr P /\
   exists t ok, In t (snd s') /\ l_me t = m_id m /\ l_kind t = KAct (m_listen m) (m_laddr m) ok.
-Proof. intros P s sched H1 H2 H3. exact (mapping_shape P s sched (conj H1 (conj H2 H3))). Qed.
+Proof. intros P s sched H1 H2 H3 H4. exact (mapping_shape P s sched (conj H1 (conj H2 (conj H3 H4)))). Qed.
 Print Assumptions C06_mapping_shape.
 
 (* a code that is absent, revoked, used or expired at the moment of GetByCode: that activation returns an error and
@@ -105,7 +112,7 @@ Theorem C06_dead_code_never_creates :
   (match by_code (fst s) with None => true | Some r => c_rev r || c_act r || expired (fst s) end) = true ->
   mains (fst s) = [] ->
   (forall t, In t (snd s) -> (l_pc t = PGet \/ exists e, l_pc t = PDone (RErr e)) \/
-                             ((l_kind t = KTick \/ l_kind t = KList) /\ forall m, l_pc t <> PDone (ROk m))) ->
+                             ((l_kind t = KTick \/ l_kind t = KList \/ exists d, l_kind t = KStall d) /\ forall m, l_pc t <> PDone (ROk m))) ->
   let s' := run sh lo (tstep Current P) s sched in
   mains (fst s') = [] /\ forall t m, In t (snd s') -> l_pc t <> PDone (ROk m).
 Proof. exact dead_code_never_creates. Qed.
@@ -121,11 +128,12 @@ Theorem C06_returned_mapping_is_callers :
   mains (fst s) = [] ->
   (forall t, In t (snd s) -> l_pc t = PGet \/ exists e, l_pc t = PDone (RErr e)) ->
   (forall i j ti tj, nth_error (snd s) i = Some ti -> nth_error (snd s) j = Some tj -> l_me ti = l_me tj -> i = j) ->
+  (claim (fst s) = true -> (p_win P <= claim_dl (fst s))%N) ->
   let s' := run sh lo (tstep Current P) s sched in
   forall t m l la ok, In t (snd s') -> l_kind t = KAct l la ok -> l_pc t = PDone (ROk m) ->
     m = l_me t /\
     In {| m_id := m; m_listen := l; m_laddr := la; m_target := p_tgt P; m_taddr := p_taddr P |} (mains (fst s')).
-Proof. intros P s sched H1 H2 H3. exact (returned_mapping_is_callers P s sched (conj H1 (conj H2 H3))). Qed.
+Proof. intros P s sched H1 H2 H3 H4. exact (returned_mapping_is_callers P s sched (conj H1 (conj H2 (conj H3 H4)))). Qed.
 Print Assumptions C06_returned_mapping_is_callers.
 
 (* read paths with side effects: ListConnectionCodesByTargetClient (repo.ListByTargetClient + the asynchronous clean-up,
@@ -139,6 +147,7 @@ Theorem C06_listing_harmless_while_valid :
   mains (fst s) = [] ->
   (forall t, In t (snd s) -> l_pc t = PGet \/ exists e, l_pc t = PDone (RErr e)) ->
   (forall i j ti tj, nth_error (snd s) i = Some ti -> nth_error (snd s) j = Some tj -> l_me ti = l_me tj -> i = j) ->
+  (claim (fst s) = true -> (p_win P <= claim_dl (fst s))%N) ->
   let s' := run sh lo (tstep Current P) s sched in
   expired (fst s') = false ->
   forall t, In t (snd s') -> l_kind t = KList ->
@@ -146,7 +155,7 @@ Theorem C06_listing_harmless_while_valid :
     by_id (snd (tstep Current P t (fst s'))) = by_id (fst s') /\
     claim (snd (tstep Current P t (fst s'))) = claim (fst s') /\
     mains (snd (tstep Current P t (fst s'))) = mains (fst s').
-Proof. intros P s sched H1 H2 H3. exact (listing_harmless_while_valid P s sched (conj H1 (conj H2 H3))). Qed.
+Proof. intros P s sched H1 H2 H3 H4. exact (listing_harmless_while_valid P s sched (conj H1 (conj H2 (conj H3 H4)))). Qed.
 Print Assumptions C06_listing_harmless_while_valid.
 
 (* activator reads the code and pauses before its claim; the owner revokes, then lists; the activator goes on.
@@ -174,10 +183,11 @@ Theorem C06_revoke_and_activation_exclusive_all_schedules :
   mains (fst s) = [] ->
   (forall t, In t (snd s) -> l_pc t = PGet \/ exists e, l_pc t = PDone (RErr e)) ->
   (forall i j ti tj, nth_error (snd s) i = Some ti -> nth_error (snd s) j = Some tj -> l_me ti = l_me tj -> i = j) ->
+  (claim (fst s) = true -> (p_win P <= claim_dl (fst s))%N) ->
   let s' := run sh lo (tstep Current P) s sched in
   forall tr ta m, In tr (snd s') -> In ta (snd s') ->
     l_kind tr = KRev -> l_pc tr = PDone RRevoked -> l_pc ta = PDone (ROk m) -> False.
-Proof. intros P s sched H1 H2 H3. exact (revoke_activation_exclusive P s sched (conj H1 (conj H2 H3))). Qed.
+Proof. intros P s sched H1 H2 H3 H4. exact (revoke_activation_exclusive P s sched (conj H1 (conj H2 (conj H3 H4)))). Qed.
 Print Assumptions C06_revoke_and_activation_exclusive_all_schedules.
 
 (* more generally at most ONE call on a code ever wins (successful activation, or revocation that wrote the record):
@@ -187,11 +197,12 @@ Theorem C06_one_winner_all_schedules :
   mains (fst s) = [] ->
   (forall t, In t (snd s) -> l_pc t = PGet \/ exists e, l_pc t = PDone (RErr e)) ->
   (forall i j ti tj, nth_error (snd s) i = Some ti -> nth_error (snd s) j = Some tj -> l_me ti = l_me tj -> i = j) ->
+  (claim (fst s) = true -> (p_win P <= claim_dl (fst s))%N) ->
   let s' := run sh lo (tstep Current P) s sched in
   forall i j ti tj, nth_error (snd s') i = Some ti -> nth_error (snd s') j = Some tj ->
     ((l_kind ti = KRev /\ l_pc ti = PDone RRevoked) \/ exists m, l_pc ti = PDone (ROk m)) ->
     ((l_kind tj = KRev /\ l_pc tj = PDone RRevoked) \/ exists m, l_pc tj = PDone (ROk m)) -> i = j.
-Proof. intros P s sched H1 H2 H3. exact (one_winner P s sched (conj H1 (conj H2 H3))). Qed.
+Proof. intros P s sched H1 H2 H3 H4. exact (one_winner P s sched (conj H1 (conj H2 (conj H3 H4)))). Qed.
 Print Assumptions C06_one_winner_all_schedules.
 
 (* "by whoever activates it first": within the activation period at most one caller is past its claim (`crit`: an
@@ -203,6 +214,7 @@ Theorem C06_first_claimer_excludes_others :
   mains (fst s) = [] ->
   (forall t, In t (snd s) -> l_pc t = PGet \/ exists e, l_pc t = PDone (RErr e)) ->
   (forall i j ti tj, nth_error (snd s) i = Some ti -> nth_error (snd s) j = Some tj -> l_me ti = l_me tj -> i = j) ->
+  (claim (fst s) = true -> (p_win P <= claim_dl (fst s))%N) ->
   let s' := run sh lo (tstep Current P) s sched in
   expired (fst s') = false ->
   (forall i j ti tj, nth_error (snd s') i = Some ti -> nth_error (snd s') j = Some tj ->
@@ -211,8 +223,42 @@ Theorem C06_first_claimer_excludes_others :
    claim (fst s') = true /\
    forall t l la ok, l_kind t = KAct l la ok -> l_pc t = PClaim ->
      snd (tstep Current P t (fst s')) = fst s' /\ exists e, l_pc (fst (tstep Current P t (fst s'))) = PRelAdm (RErr e)).
-Proof. intros P s sched H1 H2 H3. exact (claim_holder_excludes_others P s sched (conj H1 (conj H2 H3))). Qed.
+Proof. intros P s sched H1 H2 H3 H4. exact (claim_holder_excludes_others P s sched (conj H1 (conj H2 (conj H3 H4)))). Qed.
 Print Assumptions C06_first_claimer_excludes_others.
+
+(* TIME.  `KStall d` threads let d seconds pass at any point of a schedule (a holder stalls, the clock goes on; markers and
+   records whose lifetime has run out vanish), for any d — smaller or larger than any lifetime the code uses.  They are
+   ordinary threads, so EVERY all-schedules theorem in this file (at most one success, first claimer excludes others, ...)
+   quantifies over stalls of any length anywhere.  What carries it: within the activation window a claim marker that is
+   set cannot lapse.  (Needs ttl(claim) >= remaining window at claim time: regenerated side condition
+   SideC06.side_claim_lifetime_covers_window.) *)
+Theorem C06_claim_cannot_lapse_within_window :
+  forall (P : params) (s : st sh lo) (sched : list nat),
+  mains (fst s) = [] ->
+  (forall t, In t (snd s) -> l_pc t = PGet \/ exists e, l_pc t = PDone (RErr e)) ->
+  (forall i j ti tj, nth_error (snd s) i = Some ti -> nth_error (snd s) j = Some tj -> l_me ti = l_me tj -> i = j) ->
+  (claim (fst s) = true -> (p_win P <= claim_dl (fst s))%N) ->
+  let s' := run sh lo (tstep Current P) s sched in
+  claim (fst s') = true ->
+  forall t d, l_kind t = KStall d -> expired (snd (tstep Current P t (fst s'))) = false ->
+    claim (snd (tstep Current P t (fst s'))) = true.
+Proof. intros P s sched H1 H2 H3 H4. exact (claim_cannot_lapse_within_window P s sched (conj H1 (conj H2 (conj H3 H4)))). Qed.
+Print Assumptions C06_claim_cannot_lapse_within_window.
+
+(* caller 0 takes the claim and stalls; 31 s pass; caller 1 activates the same code; caller 0 goes on.  Repaired code: the
+   second caller is turned away.  A claim marker that is only a 30 s lease (Lease30 variant) lapses under the stalled
+   holder: both activations succeed, two mappings. *)
+Theorem C06_repaired_stalled_holder_keeps_claim :
+  let s := run sh lo (tstep Current P0) (s0 two_activators_and_stall) stall_schedule in
+  finished (snd s) = true /\ oks (snd s) = 1 /\ errs (snd s) = 1 /\ length (mains (fst s)) = 1.
+Proof. exact current_stalled_holder_keeps_claim. Qed.
+Print Assumptions C06_repaired_stalled_holder_keeps_claim.
+
+Theorem C06_claim_lease_30s_refuted :
+  let s := run sh lo (tstep Lease30 P0) (s0 two_activators_and_stall) stall_schedule in
+  finished (snd s) = true /\ oks (snd s) = 2 /\ length (mains (fst s)) = 2.
+Proof. exact lease30_refuted. Qed.
+Print Assumptions C06_claim_lease_30s_refuted.
 
 (* expired while in flight: an activation that finds the activation period over at its commit point (connCode.Activate,
    right after the last index append) writes no code record and enters the rollback; by C06_failed_leaves_nothing it
@@ -234,13 +280,14 @@ Theorem C06_revoked_at_claim_never_creates :
   mains (fst s) = [] ->
   (forall t, In t (snd s) -> l_pc t = PGet \/ exists e, l_pc t = PDone (RErr e)) ->
   (forall i j ti tj, nth_error (snd s) i = Some ti -> nth_error (snd s) j = Some tj -> l_me ti = l_me tj -> i = j) ->
+  (claim (fst s) = true -> (p_win P <= claim_dl (fst s))%N) ->
   let s' := run sh lo (tstep Current P) s sched in
   expired (fst s') = false ->
   (exists tr, In tr (snd s') /\ l_kind tr = KRev /\ l_pc tr = PDone RRevoked) ->
   claim (fst s') = true /\
   forall t l la ok, l_kind t = KAct l la ok -> l_pc t = PClaim ->
     snd (tstep Current P t (fst s')) = fst s' /\ exists e, l_pc (fst (tstep Current P t (fst s'))) = PRelAdm (RErr e).
-Proof. intros P s sched H1 H2 H3. exact (revoked_at_claim_never_creates P s sched (conj H1 (conj H2 H3))). Qed.
+Proof. intros P s sched H1 H2 H3 H4. exact (revoked_at_claim_never_creates P s sched (conj H1 (conj H2 (conj H3 H4)))). Qed.
 Print Assumptions C06_revoked_at_claim_never_creates.
 
 (* the deferred ReleaseAdmission step: returns the pending result and touches nothing but the admission markers *)
@@ -259,7 +306,7 @@ Print Assumptions C06_release_admission_only.
 Theorem C06_refused_at_admission_changes_nothing :
   forall (P : params) (t : lo) (s : sh) l la ok,
   l_kind t = KAct l la ok -> l_pc t = PAdm ->
-  (existsb (N.eqb l) (admk s) = true \/ l_fault t = Some 0) ->
+  (existsb (fun e => N.eqb (fst e) l) (admk s) = true \/ l_fault t = Some 0) ->
   snd (tstep Current P t s) = s /\ exists e, l_pc (fst (tstep Current P t s)) = PDone (RErr e).
 Proof. exact refused_at_admission_changes_nothing. Qed.
 Print Assumptions C06_refused_at_admission_changes_nothing.
@@ -268,8 +315,8 @@ Print Assumptions C06_refused_at_admission_changes_nothing.
    let in whatever other markers are set, and takes exactly its own *)
 Theorem C06_admission_is_per_client :
   forall (P : params) (t : lo) (s : sh) l la ok,
-  l_kind t = KAct l la ok -> l_pc t = PAdm -> existsb (N.eqb l) (admk s) = false -> l_fault t <> Some 0 ->
-  l_pc (fst (tstep Current P t s)) = PQuota /\ admk (snd (tstep Current P t s)) = l :: admk s.
+  l_kind t = KAct l la ok -> l_pc t = PAdm -> existsb (fun e => N.eqb (fst e) l) (admk s) = false -> l_fault t <> Some 0 ->
+  l_pc (fst (tstep Current P t s)) = PQuota /\ admk (snd (tstep Current P t s)) = (l, (now s + adm_ttl)%N) :: admk s.
 Proof. exact admission_is_per_client. Qed.
 Print Assumptions C06_admission_is_per_client.
 
@@ -314,7 +361,8 @@ Theorem C06_premises_satisfiable :
   mains (fst (s0 two_activators)) = [] /\
   (forall t, In t (snd (s0 two_activators)) -> l_pc t = PGet \/ exists e, l_pc t = PDone (RErr e)) /\
   (forall i j ti tj, nth_error (snd (s0 two_activators)) i = Some ti -> nth_error (snd (s0 two_activators)) j = Some tj ->
-                     l_me ti = l_me tj -> i = j).
+                     l_me ti = l_me tj -> i = j) /\
+  (claim (fst (s0 two_activators)) = true -> (p_win P0 <= claim_dl (fst (s0 two_activators)))%N).
 Proof. exact premises_satisfiable. Qed.
 Print Assumptions C06_premises_satisfiable.
 
